@@ -1,6 +1,7 @@
 """C17 - client objects speak the server command protocol and keep ids consistent."""
 
 import ast
+import re
 import json
 import os
 
@@ -100,7 +101,37 @@ def rule_cmds(ctx):
                 why = f'{head} with {cnt} argument(s); allowed {lo}..{hi if hi is not None else "n"}' + \
                       (f' in groups of {spec["group"]} after the first {spec.get("group_from", lo)}' if spec.get('group') else '')
             ctx.ob('C17.cmds', k, ok, why, node, m)
+            # argument roles of the file commands (mixed int/bool arguments that the arity check cannot tell apart)
+            roles = ROLES.get(head)
+            if roles and not starred:
+                for pos, (role, pat) in roles.items():
+                    if pos < len(fixed):
+                        a = norm(fixed[pos])
+                        ctx.ob('C17.cmds', f'{k}:arg{pos}:{role}', re.fullmatch(pat, a) is not None,
+                               f'{head} argument {pos} is the {role}; `{a}` does not look like one (expected /{pat}/): arguments out of order?', node, m)
     ctx.require(n >= 100, 'C17.cmds', f'only {n} command constructions found')
+    # the dict and the sequence form of node arguments are flattened the same way: every key and value goes through
+    # _embed_as_osc_arg (a list value becomes '[' ... ']'), never as a plain nested list
+    gp = ctx.repo.module('sc3.synth._graphparam')
+    for cname in ('NodeSequence', 'NodeDictionary'):
+        f = gp.classes[cname].methods['_as_osc_arg_list']
+        src = full(f.node)
+        ok = '_embed_as_osc_arg(lst)' in src and src.endswith('return lst') and '_as_control_input()' not in src
+        ctx.ob('C17.cmds', f'{f.fq}:embeds', ok,
+               f'{cname}._as_osc_arg_list must embed each element with _embed_as_osc_arg: a list value left as a nested list is refused '
+               f'by the encoder (Synth(name, {{"freq": [1, 2]}}))', f.node, gp)
+
+
+NUMLIKE = r'(-?\d+|.*(frame|size|num|count).*)'
+ROLES = {
+    # /b_read bufnum path fileStartFrame numFrames bufStartFrame leaveOpen [completion]
+    '/b_read': {2: ('file start frame', r'(0|.*start.*)'), 3: ('number of frames', NUMLIKE), 4: ('buffer start frame', r'(0|.*start.*)'),
+                5: ('leave-open flag', r'(True|False|.*open.*)')},
+    '/b_readChannel': {2: ('file start frame', r'(0|.*start.*)'), 3: ('number of frames', NUMLIKE), 4: ('buffer start frame', r'(0|.*start.*)'),
+                       5: ('leave-open flag', r'(True|False|.*open.*)')},
+    '/b_allocRead': {2: ('file start frame', r'(0|.*start.*)'), 3: ('number of frames', NUMLIKE)},
+    '/b_write': {4: ('number of frames', NUMLIKE), 5: ('start frame', r'(0|.*start.*)'), 6: ('leave-open flag', r'(True|False|.*open.*)')},
+}
 
 
 ID_FIELDS = {'Buffer': '_bufnum', 'AudioBus': '_index', 'ControlBus': '_index', 'Bus': '_index'}
@@ -253,6 +284,10 @@ def run(ctx):
 
 
 MUTANTS = [
+    dict(rule='C17.cmds', name='(fix reverted) Buffer.cue sends /b_read arguments out of order', file='sc3/synth/buffer.py',
+         old="            '/b_read', self._bufnum, path, start_frame, self._frames,\n            0, True, fn.value(completion_msg, self))", new="            '/b_read', self._bufnum, path, start_frame, 0, True,\n            self._frames, fn.value(completion_msg, self))"),
+    dict(rule='C17.cmds', name='(fix reverted) dict arguments flattened without embedding list values', file='sc3/synth/_graphparam.py',
+         old="    def _as_osc_arg_list(self):\n        lst = []\n        for item in self._param_value.items():\n            for e in item:\n                node_param(e)._embed_as_osc_arg(lst)\n        return lst\n", new="    def _as_osc_arg_list(self):\n        return self._as_control_input()\n"),
     dict(rule='C17.pair', name='(fix reverted) id returned to the allocator before the completion function runs', file='sc3/synth/buffer.py',
          old="        msg = ['/b_free', self._bufnum, fn.value(completion_msg, self)]\n        self._uncache()\n        self._server._buffer_allocator.free(self._bufnum)\n",
          new="        self._uncache()\n        self._server._buffer_allocator.free(self._bufnum)\n        msg = ['/b_free', self._bufnum, fn.value(completion_msg, self)]\n"),
